@@ -35,9 +35,22 @@ def main():
         keep = [l for l in lines if "VIOLATION" in l or "HARNESS" in l][:4]
         sigs = [l for l in lines if l.startswith("  ")][:3]
         print(f"exit={r.returncode}", *sigs, *keep, sep="\n  ")
-        # remove replay files written for the mutant
-        import glob
-        for f in glob.glob(os.path.join(here, "replays", "*", "new-*.json")):
+        # remove replay files written for the mutant (optionally keep one as
+        # a named regression seed: MUT_KEEP=<PID>:<name>[:<sig-substring>])
+        import glob, json as _json
+        keep = os.environ.get("MUT_KEEP")
+        kept = False
+        for f in sorted(glob.glob(os.path.join(here, "replays", "*", "new-*.json"))):
+            if keep and not kept:
+                parts = keep.split(":")
+                pid, name = parts[0], parts[1]
+                want = parts[2] if len(parts) > 2 else ""
+                rec = _json.load(open(f))
+                if rec["property"] == pid and want in rec["sig"]:
+                    rec["note"] = "regression seed: fails on the tree before " + name
+                    _json.dump(rec, open(os.path.join(here, "replays", pid, name + ".json"), "w"), indent=1)
+                    kept = True
+                    print("  kept", rec["sig"], "->", f"replays/{pid}/{name}.json")
             os.remove(f)
         return 0
     finally:
